@@ -782,10 +782,26 @@ impl<'a> PG<'a> {
                 sc.in_operand = true;
                 let inner = self.call_fn(&f, sc);
                 // call_fn may have produced the pipe form e |> mk; the factory call proper is needed here
-                let inner = match inner {
+                let mut inner = match inner {
                     E::Pipe(id, a, _) => E::Call(id, Box::new(E::Var(f.name.clone())), vec![*a]),
                     other => other,
                 };
+                // half of the time the factory's argument is itself stateful (a state cell that belongs
+                // to the CALLEE expression of the outer application)
+                if state_ok && self.g.coin() {
+                    let stateful_callees: Vec<FnSig> = callees.iter().filter(|c| c.stateful && c.ret == Ty::Num).cloned().collect();
+                    let arg = if !stateful_callees.is_empty() && self.g.coin() {
+                        let c = self.g.pick(&stateful_callees).clone();
+                        self.call_fn(&c, sc)
+                    } else {
+                        self.feat.mems += 1;
+                        let mid = self.id();
+                        E::Mem(mid, Box::new(self.small_num(sc)))
+                    };
+                    if let E::Call(_, _, args) = &mut inner {
+                        *args = vec![arg];
+                    }
+                }
                 let y = self.small_num(sc);
                 sc.in_operand = was;
                 let id = self.id();
